@@ -21,6 +21,11 @@ func (c *Ctx) compareFuncs() (cmp *ssa.Function, cmps, compares, ases []*ssa.Fun
 			continue
 		}
 		o := f.Origin()
+		if o == nil && f.Parent() == nil && f.Name() == "compare" && f.Synthetic == "" && f.TypeParams().Len() == 0 {
+			// the helper written without type parameters (its left operand is an `any` that holds a number)
+			compares = append(compares, f)
+			continue
+		}
 		if o == nil || len(f.TypeArgs()) == 0 || f.Synthetic != "" && !strings.Contains(f.Synthetic, "instance of") {
 			continue
 		}
@@ -159,9 +164,10 @@ func ruleC15Trichotomy(c *Ctx) {
 		})
 		c.Check(r.OK() && r.Used["x"] && r.Used["y"], "c15.trichotomy", key, c.P.Pos(f.Pos()), fmt.Sprintf("%d order classes -> sign", r.Rows), r.Why())
 	}
-	if len(cmps) < 12 {
-		c.Unknown("c15.trichotomy", "compare.Cmp/instances", "-", fmt.Sprintf("only %d instantiations of Cmp found (12 numeric types expected)", len(cmps)))
+	if len(cmps) == 0 {
+		c.Unknown("c15.trichotomy", "compare.Cmp/instances", "-", "no instantiation of Cmp found")
 	}
+	c.Notes = append(c.Notes, fmt.Sprintf("c15.trichotomy: %d instantiations of Cmp (one per numeric type the callers use)", len(cmps)))
 }
 
 // exactIn: every value of `from` (within |n| <= 2^53 for integers) is exactly representable in `to`.
@@ -279,6 +285,44 @@ func ruleC15ExactDomain(c *Ctx) {
 		}
 		c.Check(ok, "c15.exact-domain", key, c.P.Pos(f.Pos()), fmt.Sprintf("T=%s compared in D=%s; every S->D exact", T, D), why)
 	}
+	// a caller that converts the LEFT operand itself before handing it to Cmp (Cmp(As[X](a), v)): every arm of As[X] exact too
+	_, _, comparesX, _ := c.compareFuncs()
+	for _, f := range comparesX {
+		allInstrs(f, func(_ *ssa.BasicBlock, in ssa.Instruction) {
+			call, isC := in.(*ssa.Call)
+			if !isC || call.Common().StaticCallee() == nil || call.Common().StaticCallee().Origin() == nil || call.Common().StaticCallee().Origin().Name() != "Cmp" {
+				return
+			}
+			conv, isConv := call.Common().Args[0].(*ssa.Call)
+			if !isConv || conv.Common().StaticCallee() == nil || conv.Common().StaticCallee().Origin() == nil || conv.Common().StaticCallee().Origin().Name() != "As" {
+				return
+			}
+			as := conv.Common().StaticCallee()
+			D, _ := as.Signature.Results().At(0).Type().Underlying().(*types.Basic)
+			ok, why, nArms := D != nil, "", 0
+			allInstrs(as, func(_ *ssa.BasicBlock, ain ssa.Instruction) {
+				cv, isCv := ain.(*ssa.Convert)
+				if !isCv || D == nil {
+					return
+				}
+				S, _ := cv.X.Type().Underlying().(*types.Basic)
+				if S == nil {
+					return
+				}
+				nArms++
+				pairs++
+				if !exactIn(S, D) {
+					lossy++
+					ok = false
+					why += fmt.Sprintf("%s->%s lossy; ", S, D)
+				}
+			})
+			if nArms < 11 {
+				ok, why = false, why+fmt.Sprintf("%s converts only %d numeric types", funcName(as), nArms)
+			}
+			c.Check(ok, "c15.exact-domain", instKey(c.P, f)+"/left-operand", c.P.Pos(call.Pos()), "the left operand reaches Cmp through an exact conversion of every numeric type", why)
+		})
+	}
 	c.Notes = append(c.Notes, fmt.Sprintf("c15.exact-domain: %d (T,S) conversion pairs examined, %d lossy", pairs, lossy))
 }
 
@@ -313,14 +357,24 @@ func ruleC15Dispatch(c *Ctx) {
 		}
 		if call, isCall := t.V.(*ssa.Call); isCall {
 			cal := call.Common().StaticCallee()
-			if cal != nil && cal.Origin() != nil && cal.Origin().Name() == "compare" {
+			if cal != nil && (cal.Origin() != nil && cal.Origin().Name() == "compare" || cal.Origin() == nil && cal.Name() == "compare" && funcPkgPath(cal) == comparePath) {
 				// args: asserted a, then b
 				if len(t.Args) == 2 && t.Args[0].Op == "ext" && t.Args[0].Args[0].Op == "assertok" && t.Args[0].Args[0].Args[0].Op == "param" && t.Args[0].Args[0].Args[0].Name == a &&
 					t.Args[1].Op == "param" && t.Args[1].Name == b {
 					seenT[t.Args[0].Args[0].Name] = true
 					// the instance's T must be the asserted type
-					if cal.Params[0].Type().String() != call.Common().Args[0].Type().String() {
+					if cal.Origin() != nil && cal.Params[0].Type().String() != call.Common().Args[0].Type().String() {
 						ok, why = false, "asserted type and instance type differ"
+					}
+				} else if len(t.Args) == 2 && t.Args[0].Op == "param" && t.Args[0].Name == a && t.Args[1].Op == "param" && t.Args[1].Name == b {
+					// one multi-type case: the operand is forwarded as it is; the numeric type is the one this path asserted
+					for _, k := range p.Order {
+						kt := p.KeyTerm[k]
+						if kt != nil && kt.Op == "ext" && kt.Name == "1" && kt.Args[0].Op == "assertok" && kt.Args[0].Args[0].Op == "param" && kt.Args[0].Args[0].Name == a {
+							if v, _ := p.Assumed(k); v {
+								seenT[kt.Args[0].Name] = true
+							}
+						}
 					}
 				} else {
 					ok, why = false, "numeric arm does not forward (a.(T), b) in order: "+t.String()
@@ -370,10 +424,19 @@ func ruleC15Dispatch(c *Ctx) {
 			switch {
 			case cal.Origin() != nil && cal.Origin().Name() == "Cmp":
 				nNum++
-				if !(len(t.Args) == 2 && t.Args[0].Op == "param" && t.Args[0].Name == a && t.Args[1].Contains(func(x *Term) bool { return x.Op == "param" && x.Name == v })) {
+				left := len(t.Args) == 2 && t.Args[0].Op == "param" && t.Args[0].Name == a
+				if !left && len(t.Args) == 2 && f.Origin() == nil {
+					// the helper without type parameters converts its left operand on the spot: Cmp(As[X](a), v)
+					if as, isAs := callArgs(t.Args[0], "As"); isAs && len(as) == 1 && as[0].Op == "param" && as[0].Name == a {
+						left = true
+					} else if t.Args[0].Op == "call" && strings.Contains(t.Args[0].Name, "As[") && len(t.Args[0].Args) == 1 && t.Args[0].Args[0].Op == "param" && t.Args[0].Args[0].Name == a {
+						left = true
+					}
+				}
+				if !(left && t.Args[1].Contains(func(x *Term) bool { return x.Op == "param" && x.Name == v })) {
 					ok, why = false, "numeric arm does not forward (a, v) in order: "+t.String()
 				}
-				if cal.Params[0].Type().String() != f.Params[0].Type().String() {
+				if f.Origin() != nil && cal.Params[0].Type().String() != f.Params[0].Type().String() {
 					ok, why = false, "Cmp instance type differs from T"
 				}
 			case cal.Pkg != nil && cal.Pkg.Pkg.Path() == "strings" && cal.Name() == "Compare":
